@@ -22,6 +22,7 @@ THEOREMS = ['C07_prefix_inj', 'C07_prefix_unique', 'C07_prefix_total', 'C07_sort
             'C07_toposort_sound', 'C07_toposort_det', 'C07_doc_det', 'C07_doc_det_decidable', 'C07_doc_det_tiers',
             'C07_topo_key_names',
             'C07_wsdl_closed', 'C07_one_op', 'C07_binding_unique', 'C07_binding_ops', 'C07_schema_closed',
+            'C07_imports_closed', 'C07_rebuilds_schema',
             'C07_wf_decidable', 'C07_foreign_bare_refuted', 'C07_header_reuse_refuted']
 
 HERE = os.path.abspath(__file__)
@@ -64,7 +65,11 @@ def gen_spec(rng, size='m'):
         nf = rng.randint(0 if base is not None else 1, 3)
         fields = []
         for j in range(nf):
-            fields.append(['f%d_%d' % (i, j), gen_typeref(rng, i)])
+            ft = gen_typeref(rng, i)
+            if ft[0] == 'cls' and rng.random() < 0.3:
+                # a customised variant that differs from the class in sub_name only (the member element is renamed)
+                ft = ['cls', ft[1], 'sub%d_%d' % (i, j)]
+            fields.append(['f%d_%d' % (i, j), ft])
         spec['classes'].append({'name': 'K%d' % i, 'ns': rng.choice(NSPOOL + [None, None]), 'base': base,
                                 'fields': fields})
     for i in range(rng.randint(0, 2)):
@@ -211,6 +216,22 @@ def fixed_specs():
     out.append(('rejected-no-port-on-ported-service', {'tns': 'urn:c07:tns', 'name': 'App', 'classes': [], 'faults': [],
                                                        'expect_reject': 'ValueError', 'services': [
         S('Svc0', [M('m0')], ports=['PA'])]}))
+    # a bare method whose argument class lives in a namespace that nothing else pulls into the tns schema: the
+    # request element sits in the tns schema and its type= needs the xs:import that add_method registers
+    out.append(('bare-argument-in-foreign-ns', {'tns': 'urn:c07:tns', 'name': 'App', 'classes': [
+        {'name': 'Place', 'ns': 'urn:c07:geo', 'base': None, 'fields': [['lat', ['prim', 'Integer']], ['name', ['prim', 'Unicode']]]},
+        {'name': 'Tag', 'ns': 'urn:c07:tags', 'base': None, 'fields': [['t', ['prim', 'Unicode']]]}],
+        'faults': [], 'services': [
+        S('Svc0', [M('locate', [('cls', 0)], ('prim', 'Unicode'), style='bare'),
+                   M('tag', [('prim', 'Unicode')], ('cls', 1), style='out_bare')])]}))
+    # one class used as a member through variants that differ in sub_name only (ties in toposort2 unless the key
+    # has the sub_name)
+    out.append(('subname-variants', {'tns': 'urn:c07:tns', 'name': 'App', 'classes': [
+        {'name': 'Address', 'ns': 'urn:c07:a', 'base': None, 'fields': [['street', ['prim', 'Unicode']]]},
+        {'name': 'Order', 'ns': 'urn:c07:b', 'base': None, 'fields': [
+            ['billing', ['cls', 0, 'billingAddress']], ['shipping', ['cls', 0, 'shippingAddress']],
+            ['pickup', ['cls', 0, 'pickupAddress']], ['home', ['cls', 0, 'homeAddress']], ['plain', ['cls', 0]]]}],
+        'faults': [], 'services': [S('Svc0', [M('place', [('cls', 1)], ('cls', 1))])]}))
     # three port types
     out.append(('three-ports', {'tns': 'urn:c07:tns', 'name': 'App', 'classes': [], 'faults': [], 'services': [
         S('Svc0', [M('m0', port='P1'), M('m1', port='P0'), M('m2', port='P2'), M('m3', port='P0')],
@@ -229,6 +250,11 @@ def finding_specs():
         S('Svc0', [M('m0', [('cls', 0)], ('cls', 0), style='bare', in_name='{urn:c07:o}foo')])]}))
     out.append(('bare-class-reused-as-header', {'tns': 'urn:c07:tns', 'name': 'App', 'classes': K, 'faults': [], 'services': [
         S('Svc0', [M('m0', [('prim', 'Unicode')], ('cls', 0), style='out_bare'),
+                   M('m1', [('prim', 'Unicode')], ('prim', 'Unicode'), in_header=[0])])]}))
+    out.append(('subname-variant-reused-as-header', {'tns': 'urn:c07:tns', 'name': 'App', 'classes': [
+        {'name': 'K0', 'ns': 'urn:c07:a', 'base': None, 'fields': [['x', ['prim', 'Integer']]]},
+        {'name': 'K1', 'ns': 'urn:c07:b', 'base': None, 'fields': [['k', ['cls', 0, 'renamed']]]}], 'faults': [], 'services': [
+        S('Svc0', [M('m0', [('cls', 1)], ('prim', 'Unicode')),
                    M('m1', [('prim', 'Unicode')], ('prim', 'Unicode'), in_header=[0])])]}))
     # wrapped request published in a foreign namespace: the schema is fine, the server does not find the method
     out.append(('foreign-wrapped-in-message', {'tns': 'urn:c07:tns', 'name': 'App', 'classes': [], 'faults': [], 'services': [
@@ -285,11 +311,12 @@ def client_shape(tr, v, classes):
     if c['base'] is not None:
         d.update(client_shape(['cls', c['base']], v, classes))
     for fn, ft in c['fields']:
-        d[fn] = client_shape(ft, v.get(fn), classes)
+        key = ft[2] if ft[0] == 'cls' and len(ft) > 2 else fn      # sub_name renames the member element
+        d[key] = client_shape(ft, v.get(fn), classes)
     return d
 
-def build_app(spec):
-    """spec -> real spyne Application (fresh classes every time)"""
+def build_app(spec, validator=None):
+    """spec -> real spyne Application (fresh classes every time); validator: None | 'soft' | 'lxml' on the input protocol"""
     from spyne import Application, Service, rpc, ComplexModel, Unicode, Integer, Boolean, Fault, Array
     from spyne.protocol.soap import Soap11
     prim = {'Unicode': Unicode, 'Integer': Integer, 'Boolean': Boolean}
@@ -298,7 +325,7 @@ def build_app(spec):
         if tr[0] == 'prim':
             return prim[tr[1]]
         if tr[0] == 'cls':
-            return classes[tr[1]]
+            return classes[tr[1]].customize(sub_name=tr[2]) if len(tr) > 2 else classes[tr[1]]
         return Array(ty(tr[1]))
     for c in spec['classes']:
         base = ComplexModel if c['base'] is None else classes[c['base']]
@@ -356,7 +383,7 @@ def build_app(spec):
             exec(src, env)
             attrs[m['fn']] = rpc(*[ty(t) for t in m['params']], **kw)(env[m['fn']])
         services.append(type(Service)(str(sv['name']), (Service,), attrs))
-    app = Application(services, spec['tns'], name=spec['name'], in_protocol=Soap11(), out_protocol=Soap11())
+    app = Application(services, spec['tns'], name=spec['name'], in_protocol=Soap11(validator=validator), out_protocol=Soap11())
     app.transport = 'http://schemas.xmlsoap.org/soap/http'
     for pref, nsname in spec.get('preprefix', ()):
         if nsname not in app.interface.prefmap and pref not in app.interface.nsmap:
@@ -552,7 +579,7 @@ def parse_doc(doc):
     resolved definitions / references used by the oracle"""
     from lxml import etree
     root = etree.fromstring(doc)
-    P = {'tokens': [], 'refs': [], 'dups': [], 'root': root}
+    P = {'tokens': [], 'refs': [], 'dups': [], 'root': root, 'schemas': []}
     tok = P['tokens']
     nsmap = dict((k, v) for k, v in root.nsmap.items() if k is not None)
     nsmap.setdefault('xml', 'http://www.w3.org/XML/1998/namespace')
@@ -576,6 +603,7 @@ def parse_doc(doc):
                 unknown.append(sc.tag)
                 continue
             t = sc.get('targetNamespace')
+            P['schemas'].append(sc)
             tok.extend(['S', t, 'I'])
             for ch in sc:
                 if ch.tag == XS + 'import':
@@ -679,6 +707,149 @@ def resolve(el, q):
         return None
     return (ns, l)
 
+def region_of(features):
+    for f in ('bare-simple-foreign-ns', 'bare-complex-foreign-ns', 'bare-class-reused-as-header',
+              'subname-variant-reused-as-header', 'cyclic-types'):
+        if f in features:
+            return f
+    return 'any'
+
+WELL_KNOWN_LOCATIONS = ('http://www.w3.org/', 'http://schemas.xmlsoap.org/')
+
+def oracle_schema_docs(P, features, served_by='fresh'):
+    """per schema DOCUMENT (XSD part 1, 4.2.3 / src-resolve.4): a QName reference to a namespace other than the
+    target namespace and the XSD namespace needs an xs:import of that namespace in the SAME xs:schema; and the
+    WSDL must be self-contained: no schemaLocation that points at a file next to the WSDL.  -> [(key, what)]"""
+    from lxml import etree
+    out = []
+    region = region_of(features)
+    for sc in P['schemas']:
+        t = sc.get('targetNamespace')
+        imported = set(ch.get('namespace') for ch in sc if ch.tag == XS + 'import')
+        seen = set()
+        for el in sc.iter():
+            if not isinstance(el.tag, str):
+                continue
+            if el.tag in (XS + 'import', XS + 'include', XS + 'redefine'):
+                loc = el.get('schemaLocation')
+                if loc is not None and not loc.startswith(WELL_KNOWN_LOCATIONS):
+                    out.append(('C07|self-contained|schemaLocation|%s|%s' % (etree.QName(el).localname, served_by),
+                                'xs:%s namespace=%r of the schema %r carries schemaLocation=%r: a client has to fetch '
+                                'a document that is not part of the WSDL' % (etree.QName(el).localname, el.get('namespace'), t, loc)))
+            for a in ('type', 'base', 'ref', 'itemType'):
+                q = el.get(a)
+                if q is None:
+                    continue
+                r = resolve(el, q)
+                if r is None:
+                    continue                       # undeclared prefix: reported by oracle_structure
+                ns = r[0]
+                if ns not in (t, NS_XSD) and ns not in imported and ns not in seen:
+                    seen.add(ns)
+                    out.append(('C07|closed|missing-import|%s|%s' % (a, region),
+                                'the schema of %r refers to %s=%r in namespace %r without an xs:import of that namespace '
+                                '(the reference does not resolve under XML Schema rules; libxml2 refuses the schema set)'
+                                % (t, a, q, ns)))
+    return out
+
+
+def fetch_wsdl(app):
+    """GET ...?wsdl through WsgiApplication, i.e. the document built on the application's OWN Wsdl11 object
+    (app.interface.docs.wsdl11), on which an input protocol with validator='lxml' has already built its
+    validation schema.  -> (status, bytes)"""
+    from spyne.server.wsgi import WsgiApplication
+    wsgi = WsgiApplication(app)
+    env = {'REQUEST_METHOD': 'GET', 'PATH_INFO': '/app', 'SCRIPT_NAME': '', 'QUERY_STRING': 'wsdl',
+           'SERVER_NAME': 'c07.invalid', 'SERVER_PORT': '80', 'SERVER_PROTOCOL': 'HTTP/1.1',
+           'wsgi.url_scheme': 'http', 'wsgi.input': io.BytesIO(b''), 'wsgi.errors': io.StringIO(),
+           'wsgi.multithread': False, 'wsgi.multiprocess': False, 'wsgi.run_once': False}
+    st = {}
+    def sr(status, hdrs, exc_info=None):
+        st['status'] = status
+    it = wsgi(env, sr)
+    body = b''.join(it)
+    if hasattr(it, 'close'):
+        it.close()
+    return st.get('status', ''), body, wsgi
+
+
+VALIDATORS = (None, 'soft', 'lxml')
+
+def served_leg(check, name, spec, doc, features):
+    """the WSDL as the server hands it out, under every validator setting of the input protocol: the application
+    must be constructible (validator='lxml' compiles the schema set with libxml2), the bytes must not depend on
+    the validator nor on what was built on the document object before, and must be self-contained.
+    Returns (application built with validator='lxml', its served WSDL) or (None, None)."""
+    region = region_of(features)
+    served = {}
+    if spec.get('preprefix'):
+        # prefixes registered by hand AFTER the application was constructed (which is when validator='lxml' builds
+        # its schema) would make the harness, not Spyne, responsible for a difference: serve the plain application
+        spec = dict((k, v) for k, v in spec.items() if k != 'preprefix')
+        try:
+            doc = build_wsdl(build_app(spec).app)
+        except Exception as e:
+            check.mismatch('harness', 'fresh build of %s without its hand-registered prefixes raised %r' % (name, e))
+            return None, None
+    for v in VALIDATORS:
+        vn = v or 'none'
+        try:
+            b = build_app(spec, validator=v)
+        except Exception as e:
+            check.fail('C07|schema-set|application-refused|%s|validator=%s|%s' % (type(e).__name__, vn, region),
+                       '%s: Application(..., Soap11(validator=%r)) raised %s: %s (the same services are accepted '
+                       'without the validator)' % (name, v, type(e).__name__, str(e).split('\n')[0][:300]),
+                       {'spec': spec, 'name': name, 'stage': 'served', 'validator': v})
+            continue
+        try:
+            status, body, wsgi = fetch_wsdl(b.app)
+        except Exception as e:
+            check.fail('C07|served|exception|%s|validator=%s|%s' % (type(e).__name__, vn, region),
+                       '%s: GET ?wsdl raised %s: %s' % (name, type(e).__name__, str(e)[:200]),
+                       {'spec': spec, 'name': name, 'stage': 'served', 'validator': v})
+            continue
+        check.count(('served', name, vn, json.dumps(spec, sort_keys=True)))
+        if not status.startswith('200'):
+            check.fail('C07|served|status|%s|validator=%s|%s' % (status.split()[0] if status else '?', vn, region),
+                       '%s: GET ?wsdl answered %r (validator=%r)' % (name, status, v),
+                       {'spec': spec, 'name': name, 'stage': 'served', 'validator': v})
+            continue
+        served[v] = (b, body)
+        if body != doc:
+            check.fail('C07|determinism|served-vs-fresh|%s|validator=%s' % (diff_site(doc, body), vn),
+                       '%s: the WSDL served by WsgiApplication (validator=%r, built on app.interface.docs.wsdl11) '
+                       'differs from the document a fresh Wsdl11(app.interface) builds: %s' % (name, v, first_diff(doc, body)),
+                       {'spec': spec, 'name': name, 'stage': 'served', 'validator': v})
+            try:
+                for key, what in oracle_schema_docs(parse_doc(body), features, 'served,validator=%s' % vn):
+                    check.fail(key, '%s: %s' % (name, what), {'spec': spec, 'name': name, 'stage': 'served', 'validator': v})
+            except Exception as e:
+                check.fail('C07|well-formed|served|%s' % type(e).__name__, '%s: served document does not parse: %s' % (name, e),
+                           {'spec': spec, 'name': name, 'stage': 'served', 'validator': v})
+        # a second request is answered from the cache with the same bytes
+        try:
+            env_again = fetch_again(wsgi)
+            if env_again != body:
+                check.fail('C07|determinism|served-twice|%s|validator=%s' % (diff_site(body, env_again), vn),
+                           '%s: two GET ?wsdl on one server differ' % name,
+                           {'spec': spec, 'name': name, 'stage': 'served', 'validator': v})
+        except Exception as e:
+            check.mismatch('harness', 'second ?wsdl request of %s raised %r' % (name, e))
+    return served.get('lxml', (None, None))
+
+
+def fetch_again(wsgi):
+    env = {'REQUEST_METHOD': 'GET', 'PATH_INFO': '/app', 'SCRIPT_NAME': '', 'QUERY_STRING': 'wsdl',
+           'SERVER_NAME': 'c07.invalid', 'SERVER_PORT': '80', 'SERVER_PROTOCOL': 'HTTP/1.1',
+           'wsgi.url_scheme': 'http', 'wsgi.input': io.BytesIO(b''), 'wsgi.errors': io.StringIO(),
+           'wsgi.multithread': False, 'wsgi.multiprocess': False, 'wsgi.run_once': False}
+    it = wsgi(env, lambda *a, **k: None)
+    body = b''.join(it)
+    if hasattr(it, 'close'):
+        it.close()
+    return body
+
+
 def oracle_structure(P, app, features):
     """closed + one_op on the parsed bytes.  Returns list of (key, what)."""
     out = []
@@ -696,7 +867,7 @@ def oracle_structure(P, app, features):
     for kind, q, el in P['refs']:
         r = resolve(el, q)
         region = 'any'
-        for f in ('bare-simple-foreign-ns', 'bare-class-reused-as-header'):
+        for f in ('bare-simple-foreign-ns', 'bare-class-reused-as-header', 'subname-variant-reused-as-header'):
             if f in features:
                 region = f
         if r is None:
@@ -835,6 +1006,11 @@ def spec_features(spec):
                 bare.add(m['returns'][1])
     if bare & hdr:
         f.add('bare-class-reused-as-header')
+    # ... or a member of some class through a variant that differs in sub_name (same root: has_class() takes the
+    # variant that is registered first for the class, and only that one gets its xs:element)
+    subbed = set(ft[1] for c in spec['classes'] for fn, ft in c['fields'] if ft[0] == 'cls' and len(ft) > 2)
+    if (subbed & hdr) and 'bare-class-reused-as-header' not in f:
+        f.add('subname-variant-reused-as-header')
     return f
 
 
@@ -1073,18 +1249,19 @@ IMPORTS = ('From SpyneV Require Import Base.Prelude C07.Model.\n'
            '  match render (perm_by rank) a, o with\n'
            '  | ROk (toks, nm), Some (otoks, onm) =>\n'
            '      tl_eqb toks otoks && pl_eqb (isort (fun x y => text_leb (fst x) (fst y)) nm) onm\n'
-           '      && implb guard (wf_snapb a)\n'
+           '      && implb guard (wf_snapb a) && implb guard (wf_importsb a)\n'
            '  | RErr EKeyError, None | RErr EAssertCyclic, None | RErr EValueError, None | RErr ESameName, None => true\n'
            '  | _, _ => false end.\n'
            'Definition c07_show (c : snap * list Z * obs * bool * bool * bool) :=\n'
            '  let \'(a, rank, o, guard, pinj, psep) := c in\n'
-           '  (wf_snapb a, key_injb a, tier_sepb a, render (perm_by rank) a).')
+           '  (wf_snapb a, wf_importsb a, key_injb a, tier_sepb a, render (perm_by rank) a).')
 
 # the regions of the known findings in which the hypothesis wf_snap of C07_schema_closed does not hold
 GUARD_REGIONS = frozenset(['bare-simple-foreign-ns', 'bare-complex-foreign-ns', 'bare-class-reused-as-header',
+                           'subname-variant-reused-as-header',
                            'cyclic-types'])
 
-def process(check, name, spec, cases, want_zeep=True):
+def process(check, name, spec, cases, want_zeep=True, want_served=True):
     """build, snapshot, build the document, parse, queue the correspondence case, run the oracle.
     Returns the document bytes (or None)."""
     features = spec_features(spec)
@@ -1138,8 +1315,12 @@ def process(check, name, spec, cases, want_zeep=True):
     dh['key_injective (C07_doc_det)'] += int(pinj)
     dh['key separates the writing classes of every tier (C07_doc_det_tiers)'] += int(psep)
     check.count(('doc', json.dumps(spec, sort_keys=True)))
-    for key, what in oracle_structure(P, b.app, features):
+    for key, what in oracle_structure(P, b.app, features) + oracle_schema_docs(P, features):
         check.fail(key, '%s: %s' % (name, what), {'spec': spec, 'name': name, 'stage': 'structure'})
+    # the document as the server hands it out, under every validator setting
+    b_lxml, doc_lxml = (None, None)
+    if want_served:
+        b_lxml, doc_lxml = served_leg(check, name, spec, doc, features)
     # rebuilding in the same process gives the same bytes
     try:
         doc2 = build_wsdl(build_app(spec).app)
@@ -1150,7 +1331,10 @@ def process(check, name, spec, cases, want_zeep=True):
     except Exception as e:
         check.mismatch('harness', 'rebuild of %s raised %r' % (name, e))
     if want_zeep and not features:
-        for key, what in zeep_leg(check, spec, b, doc, name):
+        # the client is built from the SERVED bytes and talks to the server that validates requests with libxml2
+        # (falls back to the fresh document when that application could not be built: reported above)
+        zb, zdoc = (b_lxml, doc_lxml) if b_lxml is not None else (b, doc)
+        for key, what in zeep_leg(check, spec, zb, zdoc, name):
             check.fail(key, what, {'spec': spec, 'name': name, 'stage': 'zeep'})
     return doc
 
@@ -1206,12 +1390,21 @@ def run(check):
         'injective and total; toposort2 is total, sound and - where the key separates - order independent; message / '
         'portType / binding / port references resolve; one portType operation and one matching binding operation per '
         'method; binding names unique; type / base / element references of the schemas and wsdl:part elements resolve '
-        '(under wf_snap); the document skeleton, prefixes and xmlns table are order independent (under key_injb or '
-        'tier_sepb)',
+        '(under wf_snap); every schema document imports every namespace it refers to (under wf_importsb); the document '
+        'skeleton, prefixes and xmlns table are order independent (under key_injb or tier_sepb)',
         'Interface.populate_interface is outside the model: what it leaves behind enters C07_schema_closed as the decidable '
         'hypothesis wf_snap (classes registered with a registered variant of their base, requests / responses in the target '
         'namespace or registered, headers and faults registered under their element name); wf_snapb is evaluated in Coq '
         'on the snapshot of every generated application and must be true outside the regions of the known findings',
+        'wf_importsb (hypothesis of C07_imports_closed: what add_class / add_method register in Interface.imports) is '
+        'likewise evaluated in Coq on every snapshot; independently the oracle checks, per xs:schema of the emitted bytes, '
+        'that every referenced namespace is imported, and libxml2 compiles the schema set of every generated application '
+        '(Application(..., Soap11(validator=\'lxml\')))',
+        'the model starts from an empty schema table: that build_interface_document rebuilds the schema nodes whatever was '
+        'built on the object before is read from the source (gen_rebuilds_schema) and observed: the WSDL is fetched through '
+        'WsgiApplication (?wsdl, i.e. app.interface.docs.wsdl11) under validator None / soft / lxml and must equal, byte '
+        'for byte, the document of a fresh Wsdl11(app.interface), carry no schemaLocation, and drive the zeep client '
+        'against the server that validates with libxml2',
         'faults_in_tns (hypothesis of C07_wsdl_closed): Interface.add_method assigns fault.__namespace__ = tns; read off '
         'the snapshot, not proved',
         'determinism: C07_doc_det needs the toposort2 key to separate all registered classes, C07_doc_det_tiers only the '
